@@ -10,7 +10,7 @@ from vt import worlds
 ID = 'C18'
 LEVEL = 'exploration'
 RULE = ('configurations = every subset (size <=S) of {--gc 5, --gc 5 3 2, -G '
-        'DEBUG_UNCOLLECTABLE, --coverage DIR, --profile cProfile, --buffer, '
+        'DEBUG_UNCOLLECTABLE, --coverage DIR, --profile cProfile, --buffer, --gc-after-test -vvvv, '
         'warnings="error", -D with scripted stdin} x every way the test phase '
         'ends {all pass, failing+erroring tests, layer testSetUp raises, layer '
         'testTearDown raises, KeyboardInterrupt in a test body, '
@@ -24,10 +24,10 @@ RULE = ('configurations = every subset (size <=S) of {--gc 5, --gc 5 3 2, -G '
 ASSUMPTIONS = [
     'signal handlers (pdb installs a SIGINT handler) and logging handlers are not part of the stated state',
 ]
-BOUND = {'quick': 'subsets of size <=3 (93) x 8 endings', 'thorough': 'all 256 subsets x 8 endings'}
+BOUND = {'quick': 'subsets of size <=3 (130) x 8 endings', 'thorough': 'all 512 subsets x 8 endings'}
 CHUNK = 8
 
-OPTS = ['gc1', 'gc3', 'G', 'cov', 'prof', 'buf', 'warn', 'D']
+OPTS = ['gc1', 'gc3', 'G', 'cov', 'prof', 'buf', 'warn', 'D', 'gcat']
 ENDS = ['normal', 'fail', 'hookS', 'hookD', 'kbint', 'kbint_setup', 'x', 'sysexit_layer']
 
 
@@ -93,6 +93,9 @@ def run_case(case):
             argv += ['--buffer']
         elif o == 'warn':
             warn = 'error'
+        elif o == 'gcat':
+            # --gc-after-test with -vvvv switches gc debug flags per test
+            argv += ['--gc-after-test', '-vvvv']
         elif o == 'D':
             argv += ['-D']
             stdin = io.StringIO('c\n' * 20)
@@ -117,7 +120,7 @@ def run_case(case):
             'outcome': (end, res.escaped)}
 
 
-WHO = {'gc_threshold': {'gc1', 'gc3'}, 'gc_debug': {'G'},
+WHO = {'gc_threshold': {'gc1', 'gc3'}, 'gc_debug': {'G', 'gcat'},
        'sys_trace': {'cov', 'D'}, 'sys_profile': {'prof'},
        'thr_trace': {'cov'}, 'thr_profile': {'prof'},
        'sys_settrace_func': {'cov'}, 'warn_filters': {'warn'},
